@@ -36,7 +36,12 @@ Record step := mkStep {
     (* wave 7, object level (Model/C03BipObj.v obj_dump): per edge in post-order [node; number of the
        Bipartition object its edge carries; _split_bitmask; _leafset_bitmask; _is_rooted (0 None, 1 False,
        2 True)], and Tree.bipartition_encoding as object numbers (identities numbered by first occurrence,
-       edges first); given after an operation asked to update bipartitions and after encode_bipartitions *)
+       edges first); given after an operation asked to update bipartitions and after encode_bipartitions *);
+  s_ptrs : option (list (Z * (Z * list Z)))
+    (* wave 8, after an operation that RAISED: the whole pointer structure - for every node object the harness
+       ever registered (also those not / no longer reachable from the seed: detached subtrees, garbage) its id,
+       its parent pointer (oenc) and its child list - to be compared with the cells of the heap that the
+       model's error outcome carries (HErr e h: the state left behind) *)
 }.
 
 Record case := mkCase {
@@ -94,6 +99,13 @@ Definition obj_ok (s : step) (h : heap) (b : bstate) : bool :=
   | None, _ => true
   end.
 
+Definition ptrs_ok (s : step) (h : heap) : bool :=
+  match s_ptrs s with
+  | None => true
+  | Some l => forallb (fun r => Z.eqb (oenc (parent h (fst r))) (fst (snd r))
+                                && list_eqb Z.eqb (kids h (fst r)) (snd (snd r))) l
+  end.
+
 Definition step_ok (s : step) (e : option err) (h0 h : heap) : bool :=
   option_eqb err_eqb e (s_err s)
   && match abs h with
@@ -101,7 +113,8 @@ Definition step_ok (s : step) (e : option err) (h0 h : heap) : bool :=
      | None => false
      end
   && obool_eqb (rooted h) (s_rooted s)
-  && enc_ok s h0 h.
+  && enc_ok s h0 h
+  && ptrs_ok s h.
 
 Fixpoint check_steps (v : variants) (l : list step) (h : heap) (b : bstate) : bool :=
   match l with
